@@ -26,6 +26,8 @@ import (
 	"strconv"
 	"strings"
 	"sync"
+	"sync/atomic"
+	"syscall"
 	"time"
 
 	"github.com/prometheus/client_golang/prometheus"
@@ -72,6 +74,32 @@ type trackedConn struct {
 	rec    *Recorder
 	once   sync.Once
 	closed chan struct{}
+	// fault injection (family iofault): the k-th Read or Write on the server side fails like a reset connection, and so does every later one
+	failOp string
+	failAt int32
+	nRead  int32
+	nWrite int32
+	broken int32
+}
+
+func (c *trackedConn) Read(p []byte) (int, error) {
+	if c.failOp != "" {
+		if atomic.LoadInt32(&c.broken) != 0 || (c.failOp == "read" && atomic.AddInt32(&c.nRead, 1) == c.failAt) {
+			atomic.StoreInt32(&c.broken, 1)
+			return 0, &net.OpError{Op: "read", Net: "tcp", Err: syscall.ECONNRESET}
+		}
+	}
+	return c.Conn.Read(p)
+}
+
+func (c *trackedConn) Write(p []byte) (int, error) {
+	if c.failOp != "" {
+		if atomic.LoadInt32(&c.broken) != 0 || (c.failOp == "write" && atomic.AddInt32(&c.nWrite, 1) == c.failAt) {
+			atomic.StoreInt32(&c.broken, 1)
+			return 0, &net.OpError{Op: "write", Net: "tcp", Err: syscall.ECONNRESET}
+		}
+	}
+	return c.Conn.Write(p)
 }
 
 func (c *trackedConn) Close() error {
@@ -85,6 +113,7 @@ func (c *trackedConn) Close() error {
 type trackedListener struct {
 	net.Listener
 	rec   *Recorder
+	fault func(id string) (string, int) // optional
 	idOf  func(port int) string
 	mu    sync.Mutex
 	conns []*trackedConn
@@ -98,6 +127,10 @@ func (l *trackedListener) Accept() (net.Conn, error) {
 	port := c.RemoteAddr().(*net.TCPAddr).Port
 	id := l.idOf(port)
 	tc := &trackedConn{Conn: c, id: id, rec: l.rec, closed: make(chan struct{})}
+	if l.fault != nil {
+		op, at := l.fault(id)
+		tc.failOp, tc.failAt = op, int32(at)
+	}
 	l.mu.Lock()
 	l.conns = append(l.conns, tc)
 	l.mu.Unlock()
@@ -220,6 +253,7 @@ type Scenario struct {
 	nextID  int
 	opts    stack.Options
 	served  chan struct{}
+	faults  map[string][2]any // conn id -> {op, k}
 	Notes   []string
 	Latency map[string]float64
 }
@@ -244,7 +278,14 @@ func startScenario(name, family string, o stack.Options) *Scenario {
 	rec = s.r
 	recMu.Unlock()
 	o.WrapListener = func(l net.Listener) net.Listener {
-		s.ln = &trackedListener{Listener: l, rec: s.r, idOf: func(port int) string {
+		s.ln = &trackedListener{Listener: l, rec: s.r, fault: func(id string) (string, int) {
+			s.mu.Lock()
+			defer s.mu.Unlock()
+			if f, ok := s.faults[id]; ok {
+				return f[0].(string), f[1].(int)
+			}
+			return "", 0
+		}, idOf: func(port int) string {
 			// the client registered its source port before it was allowed to proceed; wait briefly for the registration
 			for i := 0; i < 2000; i++ {
 				s.r.mu.Lock()
@@ -305,6 +346,7 @@ type clientOpts struct {
 	reset    bool          // leave with a TCP reset (SO_LINGER 0) and without close_notify instead of an orderly close
 	partial  bool          // before leaving, send the first half of one more request (the server is mid-read when the client goes)
 	unread   bool          // before leaving, send one more complete request and do not read its response
+	deadline time.Duration // overall deadline of the session (default 15s)
 }
 
 func rstClose(c net.Conn) {
@@ -348,6 +390,16 @@ func (s *Scenario) client(kind string, o clientOpts) (id string, err error) {
 	if err != nil {
 		return id, err
 	}
+	return s.run(kind, raw, id, o)
+}
+
+// session runs an ordinary n-request session on an already dialled connection and tolerates every failure
+func (s *Scenario) session(kind string, raw net.Conn, n int) {
+	s.run(kind, raw, "x", clientOpts{requests: n, deadline: 5 * time.Second})
+}
+
+func (s *Scenario) run(kind string, raw net.Conn, id string, o clientOpts) (string, error) {
+	var err error
 	if o.reset {
 		defer rstClose(raw)
 	} else {
@@ -389,7 +441,10 @@ func (s *Scenario) client(kind string, o clientOpts) (id string, err error) {
 	if !o.reset {
 		defer tc.Close()
 	}
-	tc.SetDeadline(time.Now().Add(15 * time.Second))
+	if o.deadline == 0 {
+		o.deadline = 15 * time.Second
+	}
+	tc.SetDeadline(time.Now().Add(o.deadline))
 	if kind == "h2" {
 		tc.Write([]byte(h2raw.Preface))
 		tc.Write(h2raw.Settings())
